@@ -64,6 +64,8 @@ pub struct RawBlock {
     pub wits: Vec<Span>,
     /// aux data by transaction index (Shelley+), first occurrence of a key
     pub aux: BTreeMap<u64, Span>,
+    /// the keys in wire order
+    pub aux_order: Vec<u64>,
     pub aux_dup_keys: bool,
     /// indices listed as invalid (Alonzo+); None when the block has no such field
     pub invalid: Option<Vec<u64>>,
@@ -98,6 +100,7 @@ pub fn parse_block(buf: &[u8]) -> Result<RawBlock, String> {
         bodies: vec![],
         wits: vec![],
         aux: BTreeMap::new(),
+        aux_order: vec![],
         aux_dup_keys: false,
         invalid: None,
     };
@@ -127,6 +130,7 @@ pub fn parse_block(buf: &[u8]) -> Result<RawBlock, String> {
                     rb.aux_dup_keys = true;
                 } else {
                     rb.aux.insert(k, span(v));
+                    rb.aux_order.push(k);
                 }
             }
             if let Some(inv) = blk.get(4) {
